@@ -82,21 +82,21 @@ func lexImportStart(l *lexer) lexFn {
 }
 
 func lexImports(l *lexer) lexFn {
-	for {
-		l.skipRun(" \t\n\r")
-		switch l.peek() {
-		case ')':
-			l.skipRun(")\n\r")
-			return lexGoLineStart
-		case scanner.EOF:
+	l.skipRun(" \t\n\r")
+	switch l.peek() {
+	case ')':
+		l.skipRun(")\n\r")
+		return lexGoLineStart
+	case scanner.EOF:
+		return l.errorf("import expected")
+	default:
+		l.acceptUntil("\n\r")
+		if l.current() == "" {
 			return l.errorf("import expected")
-		default:
-			l.acceptUntil("\n\r")
-			if l.current() == "" {
-				return l.errorf("import expected")
-			}
-			l.emit(tImport)
 		}
+		l.emit(tImport)
+		// return to the token pump after every import so the token queue can never fill up
+		return lexImports
 	}
 }
 
